@@ -17,7 +17,7 @@ from ..ctx import CTX, RunTooBig
 from ..history import History, canon, canon_outcome, digest
 from ..rng import Streams, chance, pick, weighted
 from ..sim import apply_op, build_sim, locations, readable, stack_state, watch_calls
-from ..world import gen_inputs, gen_request, gen_situation, gen_value, gen_world
+from ..world import gen_inputs, gen_request, gen_situation, gen_value, gen_world, wide_knob
 from . import Result
 
 PROPERTY = "C17"
@@ -101,6 +101,7 @@ def generate(seed: int, tier: str) -> dict:
         n_vars=wr.randint(4, 10 if tier == "quick" else 16),
         max_depth=2,
         units=UNITS if profile == "acyclic" else None,
+        wide=wide_knob(wr, tier, 0.15),
     )
     ir = st["inputs"]
     situation = gen_situation(ir, world, max_persons=5)
